@@ -188,9 +188,13 @@ func c08Frame(t *rapid.T, w gen.World) ([]byte, int, string) {
 			Op: uint16(rapid.SampledFrom([]int{1, 1, 2, 2, 0, 9}).Draw(t, "op")), SHA: w.MAC().Draw(t, "sha"), SPA: w.IP4().Draw(t, "spa"), THA: w.MAC().Draw(t, "tha"), TPA: w.IP4().Draw(t, "tpa")}
 		return ref.Eth(ref.MAC{0xff, 0xff, 0xff, 0xff, 0xff, 0xff}, cl, 0x0806, ref.ARP(p)), 1, class
 	case "dhcp":
-		v6 = false
+		// Parse classifies UDP port 67/68 as DHCPv4 whatever the IP version: one in eight comes over IPv6
+		v6 = rapid.IntRange(0, 7).Draw(t, "dhcpOver6") == 0
 		if rapid.Bool().Draw(t, "zeroSrc") {
 			src4 = [4]byte{}
+		}
+		if v6 {
+			class = "dhcp-over-ip6"
 		}
 		return udp(68, 67, gen.DHCPPayload(t, w), [4]byte{255, 255, 255, 255}), 1, class
 	case "dhcp-client": // a reply of another server seen on the wire
@@ -351,6 +355,18 @@ func TestC08(t *testing.T) {
 			c08Run(tb, rec, "truncations", c08Case{Data: c.Data[:n], Times: c.Times})
 		}
 	})
+
+	// 802.3 frames of every payload length (the processors dump the payload into a fixed-size log line)
+	kinds8023 := [][3]byte{{0x42, 0x42, 0x03}, {0xaa, 0xaa, 0x03}, {0xe0, 0xe0, 0x03}, {0x11, 0x22, 0x00}}
+	drv.Enum(t, rec, "8023-lengths", 1501*len(kinds8023), func(i int) c08Case {
+		n, k := i%1501, kinds8023[i/1501]
+		pl := make([]byte, n)
+		for j := range pl {
+			pl[j] = byte(j*7 + 1)
+		}
+		copy(pl, k[:])
+		return c08Case{Data: ref.Eth(ref.MAC{0x01, 0x80, 0xc2, 0, 0, 0}, w.Clients[i%4], uint16(n), pl), Times: 1}
+	}, func(tb drv.TB, c c08Case) { c08Run(tb, rec, "8023-lengths", c) })
 
 	drv.Prop(t, rec, "decoders", 40000, 800000, func(t *rapid.T) c08Case { return genC08Decoder(t, w) }, func(tb drv.TB, c c08Case) { c08RunDecoder(tb, rec, "decoders", c) })
 }
